@@ -23,7 +23,8 @@ import Std.Data.HashMap
       {"k":"set","x":name,"v":q,"force":b} {"k":"fix","x":name,"v":q} {"k":"reset","x":name} {"k":"per","x":name,"b":b}
       {"k":"mk","c":cid,"slots":[{"lo":q,"hi":q,"dflt":q|null,"num":q,"key":s} | {"lo":q,"hi":q,"dflt":q|null,"ref":name}]}
           a constructor: one `_set_parameter` per slot, in order
-      {"k":"assign","c":cid,"kv":[[name,q]]}  {"k":"resetall","c":cid}  {"k":"copy","c":cid} (observation only)
+      {"k":"assign","c":cid,"kv":[[name,q]][,"fwd":false]}  ("fwd": false = BS.compute_unitary(assign=…), ignored)
+      {"k":"resetall","c":cid}  {"k":"copy","c":cid} (observation only)
       -> {"cur":R,"fix":R}  (pinned / repaired `_set_parameter`), R = {"out":[null|class|copy report per op],
          "snaps":[after every op {"params":{name:[lo,hi,periodic,variable,value]},
                                    "comps":{cid:{"vars":[..],"defined":b,"getvars":[null|"name"|q per slot]}}}]}
@@ -198,7 +199,8 @@ def lifeOp (sound : Bool) (s : LifeSt) (j : Json) : Except String (LifeSt × Jso
       match e with
       | .arr #[.str x, v] => return (x, ← ratOfJson v)
       | _ => throw "bad assign entry"
-    let (st', o) := sstep sound s.st (.assign c.keys kv)
+    let fwd := (j.getObjValAs? Bool "fwd").toOption.getD true
+    let (st', o) := computeAssign sound fwd s.st c.keys kv
     return ({ s with st := st' }, excToJson o)
   | "resetall" =>
     let c ← findComp s (← strOf j "c")
